@@ -33,7 +33,7 @@ func c14Alphabet(q rune) []rune {
 	if q == '"' {
 		other = '\''
 	}
-	return []rune{q, other, 'a', 'é', 'я', '€', '\U0001F600', ' ', '\n'}
+	return []rune{q, other, 'a', 'é', 'я', '€', '\U0001F600', ' ', '\n', '\r'}
 }
 
 var c14Tails = []string{"", " x", ","}
@@ -77,7 +77,11 @@ func c14Run(c *fw.Ctx, state string, q rune, s string) {
 		t.SetDecodeStrings(true)
 		res := tokenizeOn(t, enc)
 		c.Eval(1)
-		if res.failed() || len(res.toks) != 2 || res.toks[0].typ != tokenizers.Quoted || res.toks[0].val != s || res.toks[1].typ != tokenizers.Eof {
+		// (whether the tokenizer as constructed reports the end of input as a token is not pinned)
+		if n := len(res.toks); n > 0 && res.toks[n-1].typ == tokenizers.Eof {
+			res.toks = res.toks[:n-1]
+		}
+		if res.failed() || len(res.toks) != 1 || res.toks[0].typ != tokenizers.Quoted || res.toks[0].val != s {
 			detail := tokStr(res.toks)
 			if res.failed() {
 				detail = res.failStr()
@@ -92,7 +96,10 @@ func c14Run(c *fw.Ctx, state string, q rune, s string) {
 		t.SetDecodeStrings(true)
 		res := tokenizeOn(t, "я,"+enc)
 		c.Eval(1)
-		if res.failed() || len(res.toks) != 4 || res.toks[0].val != "я" || res.toks[1].typ != tokenizers.Symbol || res.toks[2].typ != tokenizers.Quoted || res.toks[2].val != s {
+		if n := len(res.toks); n > 0 && res.toks[n-1].typ == tokenizers.Eof {
+			res.toks = res.toks[:n-1]
+		}
+		if res.failed() || len(res.toks) != 3 || res.toks[0].val != "я" || res.toks[1].typ != tokenizers.Symbol || res.toks[2].typ != tokenizers.Quoted || res.toks[2].val != s {
 			detail := tokStr(res.toks)
 			if res.failed() {
 				detail = res.failStr()
@@ -136,7 +143,7 @@ func init() {
 	fw.Register(&fw.Check{
 		ID:    "C14",
 		Level: "model_checking",
-		Rule: "every string up to the length bound over {quote, other quote, ASCII letter, 2-, 3- and 4-byte characters, space, LF} x quote in {',\",”} x the three quote states; " +
+		Rule: "every string up to the length bound over {quote, other quote, ASCII letter, 2-, 3- and 4-byte characters, space, LF, CR} x quote in {',\",”} x the three quote states; " +
 			"oracle: Decode never panics, Decode(Encode(s))=s, and for the expression and CSV states the encoding followed by each tail in {EOF,' x',','} is read back as one token that decodes to s with the scanner left at the tail, and a default CSV / expression tokenizer as constructed (decoding on) returns exactly one Quoted token holding s; plus every history of <=3 Encode/Decode/NextToken calls (terminated and unterminated literals, any of the three quote characters) on ONE state instance, each result compared with a fresh instance; non-trivial = non-empty string",
 		Assume: []string{"one representative per UTF-8 width stands for the width class"},
 		Spaces: func(tier string) []fw.Space {
